@@ -1076,6 +1076,8 @@ class Array(Taggable):
         """
         Returns a copy of *self* with *iaxis*-th axis tagged with *tags*.
         """
+        # (normalizes a negative index: the slices below do not)
+        iaxis = range(len(self.axes))[iaxis]
         new_axis = self.axes[iaxis].tagged(tags)
         if new_axis is not self.axes[iaxis]:
             return self.copy(
